@@ -29,6 +29,11 @@ CHECKS.update({
    text="Every history of length <=4 (quick) / <=5 (thorough) over an 18-symbol alphabet (initiate valid/invalid/missing-fragment roots, required/load/emit/free on live, freed, never-issued and zero ids) plus random histories of 8-60 calls with up to 6 tasks and config reloads are driven through the real extern \"C\" functions exactly as loader-core does (alloc_string/copy/call/free_string). Each response is compared with a sequential model; each emit with a fresh loader instance given the same files. The same driver runs with a shadow heap that checks every dealloc against the recorded layout, under ASan, under valgrind and (short purposeful histories) under Miri.",
    note="a clean sanitizer run is absence of reports on the histories driven, not memory safety; Miri uses tree borrows and ignores leaks (see evidence assumptions); panics inside the ABI abort the process and are diagnosed by re-running the dead shard in trace mode", ref="DESIGN.md §5 C19"),
 })
+CHECKS.update({
+ "C08": dict(cat="exploration", tech="runtime monitor: panic/abort/exit detector (catch_unwind + panic hook at every public stage, CLI stderr/status, loader process death) over hostile generated inputs",
+   text="Token-level mutations of a valid project, random syntactic documents, token soup, arbitrary Unicode (BOM, NUL, invalid escapes), config mutations, nesting to depth 40 and spliced documents are pushed through both parsers, parse_config, extension and import resolution, both checkers and (after an accepted check) every printer and print_positioned_error, each call inside catch_unwind with the panic site recorded; a sample goes through the real CLI (crash = 'panicked at' on stderr, signal, or exit status outside {0,1}) and the loader ABI is driven in separate engine processes whose death is diagnosed by trace replay.",
+   note="non-termination is observed through the shard watchdog (inconclusive unless it reproduces in isolation); release profile as shipped", ref="DESIGN.md §5 C08"),
+})
 NOT_YET = {}
 
 def main():
